@@ -64,6 +64,9 @@ def search(prop, failed, repo, verif, seed=1, count=300000):
         if f.get("name", "").startswith("resolve/"):
             # any obligation of the resolution unit: real resolve_variables vs the transcription of resolve / scoped
             t = "resolve"
+        if f.get("function") in ("check_definitions", "check_definition"):
+            # the definition-order check runs inside parse(): the whole pipeline on random sentences
+            t = "pipeline"
         if t in KNOWN and t not in targets:
             targets.append(t)
         if f.get("name", "").startswith("pipeline/") and prop == "C07" and "pipeline" not in targets:
